@@ -171,6 +171,74 @@ def r11_5(ck, F):
               f"reasons {got}; Closed arm -> {closed_arm}", f"closed_reason builds {got}; Closed arm -> {closed_arm}", b.loc(0))
 
 
+def _always_calls(F, body, target):
+    """Does every path through `body` call `target` (directly)?"""
+    blocks = {bb for bb, t in body.calls(target)}
+    return bool(blocks) and body.find_path([0], body.returns(), avoid=blocks) is None
+
+
+def r11_6(ck, F):
+    ck.rule("R11.6", "consumption returns credit unconditionally: in Receiver::recv_any / recv_chunk every frame taken from "
+            "the port queue (Data, PortRequests) reaches ChannelCreditReturner::start_return before the next suspension "
+            "or return — in particular also after the receiver was closed",
+            "receiver closed gracefully while a forwarder (override_graceful_close) still has data in flight: without "
+            "returned credit the in-flight messages are stuck although their send completed", floor=4)
+    SR = "chmux::credit::ChannelCreditReturner::start_return"
+    for fn in ("chmux::receiver::Receiver::recv_any", "chmux::receiver::Receiver::recv_chunk"):
+        b = F.main_body(fn)
+        ret = {bb for bb, t in b.calls(SR)}
+        # crate-local helpers that always call start_return count as start_return
+        for bb, t in b.calls():
+            fnr = t.get("fn", {})
+            if fnr.get("local") and fnr.get("dp"):
+                hb = F.by_dp.get(("remoc", fnr["dp"]))
+                if hb is not None and hb.file.endswith("chmux/receiver.rs") and _always_calls(F, hb, SR):
+                    ret.add(bb)
+        n = 0
+        for s in b.reachable:
+            t = b.term(s)
+            if t["t"] != "switch":
+                continue
+            e = switch_expr(b, s)
+            if e[0] != "discr" or not (e[1][0] == "proj" and e[1][2][-2:] == ("@Some", "0") and
+                                       any(w[0] == "await" for w in mir.walk(e[1]) if isinstance(w, tuple) and w)):
+                continue
+            for v, tb in t["targets"]:
+                m = switch_meaning(b, s, v)
+                if m in ("Data", "PortRequests"):
+                    n += 1
+                    p = b.find_path([tb], set(b.yields()) | set(b.returns()), avoid=ret)
+                    ck.expect(p is None, f"{fn.split('::')[-1]}#{m}-returns-credit", "credit of the consumed frame is returned",
+                              f"a {m} frame taken from the queue in {fn.split('::')[-1]} can be consumed without returning its "
+                              f"credit (path to {b.loc(p[-1]) if p else ''})", b.loc(tb))
+        ck.expect(n == 2, f"{fn.split('::')[-1]}#frame-arms", "Data and PortRequests arms found", f"{n} frame arms found", b.loc(0))
+
+
+def r11_7(ck, F):
+    ck.rule("R11.7", "a processed hang-up is remembered for late observers: the ReceiveClose / ReceiveFinish arms *take* the "
+            "notifier list (leaving None), and Closed::new completes immediately when the list is None",
+            "Sender::closed() obtained after the hang-up was processed (e.g. by a forwarder busy sending) never resolves: "
+            "the close never reaches the original sender", floor=3)
+    hr = F.main_body(HANDLE_RECEIVED)
+    arms, sw, _ = event_arms(hr, MUX_MSG)
+    for var in ("ReceiveClose", "ReceiveFinish"):
+        region = arms[var][2]
+        takes = [bb for bb, t in hr.calls("std::option::Option::take") if bb in region and
+                 "remote_receiver_closed_notify" in mir.show(hr.expr(t["a"][0]))]
+        ck.expect(len(takes) == 1, f"handle_received_msg#{var}-takes-notifiers", "notifier list taken (set to None)",
+                  f"{var} does not take the notifier list: later closed() futures register a waker nobody fires", hr.loc(sw))
+    cb = F.body("chmux::sender::Closed::new")
+    fam = F.family("chmux::sender::Closed::new")
+    # None arm: no registration (push), i.e. completes immediately
+    pushes = [(x, bb) for x in fam for bb, t in x.calls("std::vec::Vec::push")]
+    ok = bool(pushes)
+    for x, bb in pushes:
+        ce = [(switch_expr(x, s), switch_meaning(x, s, v)) for s, tb, v in controlling_edges(x, bb)]
+        ok = ok and any(e[0] == "discr" and m == "Some" for e, m in ce)
+    ck.expect(ok, "Closed::new#none-is-closed", "a waker is registered only while the list is Some",
+              "Closed::new registers a waker even when the hang-up was already processed", cb.loc(0))
+
+
 def run(ck, F):
-    for r in (r11_1, r11_2, r11_3, r11_4, r11_5):
+    for r in (r11_1, r11_2, r11_3, r11_4, r11_5, r11_6, r11_7):
         ck.run_rule(r)
